@@ -30,9 +30,11 @@ const (
 	fOK = iota
 	fErr
 	fGone
+	fStall
 )
 
 type fakeS3 struct {
+	pageSize int // > 0: listings are truncated after this many keys (continuation tokens)
 	mu    sync.Mutex
 	objs  map[string][]byte
 	log   []reqRec
@@ -44,7 +46,9 @@ type fakeS3 struct {
 	gate  func(kind, key string) // scheduler hook, called before the request is applied
 }
 
-func newFakeS3() *fakeS3 { return &fakeS3{objs: map[string][]byte{}, crash: -1} }
+// (listings are truncated after two keys: every listing of three or more versions takes several
+//  pages; single-page listings are what the SQL level sees through gofakes3)
+func newFakeS3() *fakeS3 { return &fakeS3{objs: map[string][]byte{}, crash: -1, pageSize: 2} }
 
 func (f *fakeS3) snapshot() map[string][]byte {
 	f.mu.Lock()
@@ -145,19 +149,29 @@ func (f *fakeS3) GetObjectWithContext(ctx aws.Context, in *s3.GetObjectInput, _ 
 }
 
 func (f *fakeS3) ListObjectsV2WithContext(ctx aws.Context, in *s3.ListObjectsV2Input, _ ...request.Option) (*s3.ListObjectsV2Output, error) {
-	if err := f.pre(ctx, "L", *in.Prefix, false); err != nil {
-		return nil, err
+	// a listing is one request for the fault plan, the request log and the schedulers, however many
+	// pages it takes: the continuation pages (a store may truncate a listing after any number of
+	// keys) are answered without further bookkeeping
+	if in.ContinuationToken == nil {
+		if err := f.pre(ctx, "L", *in.Prefix, false); err != nil {
+			return nil, err
+		}
 	}
 	f.mu.Lock()
 	var keys []string
 	for k := range f.objs {
-		if strings.HasPrefix(k, *in.Prefix) {
+		if strings.HasPrefix(k, *in.Prefix) && (in.ContinuationToken == nil || k > *in.ContinuationToken) {
 			keys = append(keys, k)
 		}
 	}
 	f.mu.Unlock()
 	sort.Strings(keys)
 	out := &s3.ListObjectsV2Output{IsTruncated: aws.Bool(false)}
+	if f.pageSize > 0 && len(keys) > f.pageSize {
+		keys = keys[:f.pageSize]
+		out.IsTruncated = aws.Bool(true)
+		out.NextContinuationToken = aws.String(keys[len(keys)-1])
+	}
 	for _, k := range keys {
 		k := k
 		out.Contents = append(out.Contents, &s3.Object{Key: &k})
